@@ -50,7 +50,8 @@ VARIABLES scn,                      \* configuration of the current lifecycle
           nd,                      \* nd[n]: observations per node id: starts, stops (look-ups of its process by
                                    \*        ProcessLauncher.stop = the node was handled by a stop), term (terminate() calls),
                                    \*        sysm (system metrics stored by its telemetry), stored (results stored by
-                                   \*        Mechanic._add_results), inst (install dir absent/present/removed),
+                                   \*        Mechanic._add_results), shut (metrics produced while the node was shut down that are part of
+                                   \*        the stored results), inst (install dir absent/present/removed),
                                    \*        proc (its OS process: alive | early | late | stubborn, set by the environment)
           ho,                      \* ho[h]: number of flush(refresh=True) of the host's system metrics store
           env,                     \* environment: up (remote daemons in the convention), left, fault, stopSent, resets, torn, procs
@@ -99,7 +100,7 @@ Reset(k) == [Msg("ResetRelativeTime") EXCEPT !.a = k]
 A(name, a, b) == [name |-> name, a |-> a, b |-> b]
 
 InitNa == [exists |-> FALSE, alive |-> FALSE, eng |-> "none", running |-> FALSE, cfgs |-> FALSE]
-InitNd == [starts |-> 0, stops |-> 0, term |-> 0, sysm |-> 0, stored |-> 0, inst |-> "absent", proc |-> "alive"]
+InitNd == [starts |-> 0, stops |-> 0, term |-> 0, sysm |-> 0, stored |-> 0, shut |-> 0, inst |-> "absent", proc |-> "alive"]
 InitMech == [alive |-> TRUE, status |-> "none", children |-> <<>>, resp |-> 0, ext |-> FALSE]
 InitDisp == [exists |-> FALSE, alive |-> FALSE, pending |-> <<>>, remotes |-> [ip \in RIps |-> <<>>], listening |-> FALSE]
 NoChan(s) == [h \in Hosts(s) |-> <<>>]
@@ -137,6 +138,7 @@ StopNd(h) == [n \in NodeIds(scn) |->
                 THEN [nd[n] EXCEPT !.stops = IF na[h].running THEN @ + 1 ELSE @,
                                    !.term = IF na[h].running /\ nd[n].proc # "early" THEN @ + 1 ELSE @,
                                    !.sysm = IF na[h].running THEN @ + 1 ELSE @,
+                                   !.shut = IF na[h].running THEN @ + 1 ELSE @,
                                    !.stored = IF na[h].running THEN @ + 1 ELSE @,
                                    !.inst = IF na[h].cfgs /\ ~scn.preserve THEN "removed" ELSE @]
                 ELSE nd[n]]
@@ -541,6 +543,11 @@ NodeDone(n) == /\ nd[n].stops = 1 /\ (nd[n].proc # "early" => nd[n].term = 1)
                /\ nd[n].inst = IF scn.preserve THEN "present" ELSE "removed"
 StoppedOnlyWhenAll == (Stopped /\ ~scn.ext) => \A n \in NodeIds(scn) : nd[n].starts >= 1 => NodeDone(n)
 
+(* stop, THEN flush, THEN store: whatever a node's telemetry produces while the node is shut down (final index size, *)
+(* bytes written, ...) is part of the system results stored for that node (the metrics store buffers: only flushed    *)
+(* and refreshed records are found when the results are calculated)                                                  *)
+ShutdownMetricsStored == \A n \in NodeIds(scn) : nd[n].stored >= 1 => nd[n].shut = nd[n].sysm
+
 (* an externally provisioned cluster is never started or stopped *)
 ExternalUntouched == scn.ext => \A n \in NodeIds(scn) : nd[n].starts = 0 /\ nd[n].stops = 0 /\ nd[n].inst = "absent"
 
@@ -571,7 +578,7 @@ ExternalAnswered == (scn.ext /\ Quiescent) => /\ NN(scn) > 0 => Started
 StopAcked == (Quiescent /\ env.stopSent) => (Stopped \/ Failed)
 
 TypeOK == /\ mech.resp \in 0..MaxHosts /\ Len(mech.children) <= MaxHosts /\ mtimers \in 0..MaxResets
-          /\ \A n \in NodeIds(scn) : nd[n].starts \in 0..1 /\ nd[n].stops \in 0..1 /\ nd[n].stored \in 0..1 /\ nd[n].term \in 0..1 /\ nd[n].sysm \in 0..1
+          /\ \A n \in NodeIds(scn) : nd[n].starts \in 0..1 /\ nd[n].stops \in 0..1 /\ nd[n].stored \in 0..1 /\ nd[n].term \in 0..1 /\ nd[n].sysm \in 0..1 /\ nd[n].shut \in 0..1
           /\ \A h \in Hosts(scn) : ho[h] \in 0..1
 
 (* liveness under weak fairness of the actors and the cooperating environment *)
